@@ -86,11 +86,17 @@ fn borrow_method(k: usize, x: usize) -> (String, String) {
             "fn tagline(&self, k: &str) -> (&str, usize)".to_string(),
             format!("pub fn tagline<'a>(deps: &'a impl Sized, k: &str) -> (&'a str, usize) {{ rt::trace(format!(\"X{x}.TL|{{}}|{{}}\", rt::addr(deps), k)); (\"X{x}\", k.len()) }}\n"),
         ),
+        5 => ("fn tagline(&self, n: u32) -> &[&str]".to_string(), format!("pub fn tagline(deps: &impl Sized, n: u32) -> &[&str] {{ rt::trace(format!(\"X{x}.TL|{{}}|{{}}\", rt::addr(deps), n)); &[\"X{x}\"] }}\n")),
+        6 => (
+            "fn tagline(&self, k: &str) -> &[&str]".to_string(),
+            format!("pub fn tagline<'a>(deps: &'a impl Sized, k: &str) -> &'a [&'a str] {{ rt::trace(format!(\"X{x}.TL|{{}}|{{}}\", rt::addr(deps), k)); &[\"X{x}\"] }}\n"),
+        ),
+        7 => ("fn tagline<'a>(self: &'a Self, n: u32) -> &'a str".to_string(), format!("pub fn tagline<'a>(deps: &'a impl Sized, n: u32) -> &'a str {{ rt::trace(format!(\"X{x}.TL|{{}}|{{}}\", rt::addr(deps), n)); \"X{x}\" }}\n")),
         _ => ("fn tagline<'a>(&self, s: &'a str) -> &'a str".to_string(), format!("pub fn tagline<'a>(deps: &impl Sized, s: &'a str) -> &'a str {{ rt::trace(format!(\"X{x}.TL|{{}}|{{}}\", rt::addr(deps), s)); s }}\n")),
     }
 }
 
-pub const BORROW_KINDS: [&str; 5] = ["borrow from the receiver (elided lifetime)", "borrow from the receiver (named lifetime)", "borrow from an argument (named lifetime)", "borrow from the receiver (named lifetime next to an elided one in the output)", "borrow from the receiver (elided) next to another reference argument"];
+pub const BORROW_KINDS: [&str; 8] = ["borrow from the receiver (elided lifetime)", "borrow from the receiver (named lifetime)", "borrow from an argument (named lifetime)", "borrow from the receiver (named lifetime next to an elided one in the output)", "borrow from the receiver (elided) next to another reference argument", "elided lifetime nested inside an elided reference output", "elided lifetime nested inside an elided reference output next to another reference argument", "borrow from a typed receiver `self: &'a Self`"];
 
 pub fn gen_case(t: &mut Tape, excl: &[usize]) -> Case {
     let dynamic = t.chance(2, 5);
@@ -120,7 +126,7 @@ pub fn gen_case(t: &mut Tape, excl: &[usize]) -> Case {
         methods[0].is_async = true;
     }
     // an extra method that returns a borrow: from the receiver / the dependency (elided or named lifetime) or from an argument
-    let borrow_kind: Option<usize> = if t.chance(1, 3) { Some([0, 1, 2, 3, 4, 2][t.choose(6)]) } else { None };
+    let borrow_kind: Option<usize> = if t.chance(1, 3) { Some([0, 1, 2, 3, 4, 2, 5, 6, 7][t.choose(9)]) } else { None };
     let borrow_kind = borrow_kind.filter(|k| !excl.contains(k));
     // static selection: a method with type / const parameters of its own (one inferable from an argument, one not),
     // and a method that takes `self` by value (the block's fn takes its dependency by value)
@@ -194,6 +200,7 @@ pub fn gen_case(t: &mut Tape, excl: &[usize]) -> Case {
         src.push_str(&format!("}} }}\n__mk_tr!({});\n", methods[mi].params[i].name));
     }
     let mut max_deps = 0;
+    let impl_named = t.chance(1, 8) && methods.iter().any(|m| !m.params.is_empty());
     for x in 0..n_targets {
         let block_methods: Vec<Method> = match hygiene_block {
             Some((mi, _, j)) if x == 0 => {
@@ -202,7 +209,16 @@ pub fn gen_case(t: &mut Tape, excl: &[usize]) -> Case {
                 src.push_str("macro_rules! __mk_block { ($p:ident) => {\n");
                 ms
             }
-            _ => methods.clone(),
+            _ => {
+                let mut ms = methods.clone();
+                // a parameter of a block fn may have the name the macro gives the receiver it puts in front
+                if impl_named && hygiene_block.is_none() {
+                    if let Some(p) = ms.iter_mut().flat_map(|m| m.params.iter_mut()).next() {
+                        p.name = "__impl".to_string();
+                    }
+                }
+                ms
+            }
         };
         src.push_str(&format!("pub struct X{x};\n/*GEN*/ #[::entrait::entrait{}]\n", if dynamic { "(ref)" } else { "" }));
         if use_async_trait {
@@ -292,7 +308,7 @@ pub fn gen_case(t: &mut Tape, excl: &[usize]) -> Case {
     }
     if let Some(k) = borrow_kind {
         for a in 0..n_apps {
-            let arg = if k == 2 || k == 4 { "\"arg\"" } else { "77" };
+            let arg = if k == 2 || k == 4 || k == 6 { "\"arg\"" } else { "77" };
             src.push_str("    {\n        let _ = rt::take();\n");
             src.push_str(&format!("        let direct = format!(\"{{:?}}\", X{a}::tagline(&app{a}, {arg}));\n        let t_direct = rt::take();\n"));
             src.push_str(&format!("/*GEN*/ let via = format!(\"{{:?}}\", Tr::tagline(&app{a}, {arg}));\n        let t_via = rt::take();\n"));
@@ -380,8 +396,11 @@ pub fn gen_case(t: &mut Tape, excl: &[usize]) -> Case {
     if hygiene_block.is_some() {
         classes.push("block_from_macro_rules_with_same_spelled_parameters");
     }
+    if impl_named && hygiene_block.is_none() {
+        classes.push("block_fn_parameter_named___impl");
+    }
     if let Some(k) = borrow_kind {
-        classes.push(["borrowed_return:receiver_elided", "borrowed_return:receiver_named", "borrowed_return:argument_named", "borrowed_return:receiver_named_and_elided", "borrowed_return:receiver_elided_next_to_reference_argument"][k]);
+        classes.push(["borrowed_return:receiver_elided", "borrowed_return:receiver_named", "borrowed_return:argument_named", "borrowed_return:receiver_named_and_elided", "borrowed_return:receiver_elided_next_to_reference_argument", "borrowed_return:nested_elided_in_elided_reference", "borrowed_return:nested_elided_in_elided_reference_next_to_reference_argument", "borrowed_return:typed_receiver_named"][k]);
     }
     if gen_method.is_some() {
         classes.push("method_with_type_and_const_parameters");
